@@ -100,6 +100,7 @@ def register(reg):
     _register_store(reg)
     _register_read(reg)
     _register_read2(reg)
+    _register_store2(reg)
 
 
 def _register_nodes(reg):
@@ -444,3 +445,223 @@ def _register_read2(reg):
                         props=("C01",)))
     reg.add(g, Contract(H + "__contains__", ["self", "key"], exists_cases, setup=lambda E: root_ref_setup(E, True),
                         props=("C01",)))
+
+
+# ---------------------------------------------------------------------------------------------------
+# store level of the write path: node -> database mapping, persisting, root rule, pruning bookkeeping
+
+VAL = "trie.validation"
+
+
+def write_trie(E, pruning=None):
+    t = HM.mk_trie(E, pruning=pruning)
+    return t
+
+
+def wf_node_setup(E, pruning=None, allow_blank=True):
+    t = write_trie(E, pruning)
+    D = z3.Const(E.fresh_name("n.D"), HNode)
+    E.assume(mk_bool(HM.hwfp(D)))
+    HM.unfold_wf(E, D)
+    if not allow_blank:
+        E.assume(mk_bool(z3.Not(HNode.is_HBlank(D))))
+    node = HM.materialize(E, D)
+    return t, node, D
+
+
+def vin_cases(E, ctx):
+    """validate_is_node on a well-formed raw node returns (callee view; the recursive validator itself is decided by
+    the bounded tier)"""
+    return [Case("valid", returns=lambda: None)]
+
+
+def vin_requires(E, ctx):
+    D = HM.alpha(ctx.node)
+    HM.unfold_wf(E, D)
+    return [("well-formed-node", mk_bool(HM.hwfp(D)))]
+
+
+def mk_ref_parts(E, D):
+    enc = z3.simplify(HM.rlpenc(D))
+    return enc, z3.Length(enc) < 32
+
+
+def cmap_setup(E):
+    t, node, D = wf_node_setup(E)
+    return {"self": t, "node": node}
+
+
+def cmap_cases(E, ctx):
+    """_create_node_to_db_mapping implements the reference rule of the Yellow Paper: blank -> (b'', None); rlp shorter
+    than 32 bytes -> the node itself (embedded); otherwise (keccak(rlp), rlp)"""
+    node = ctx.node
+    D = HM.alpha(node)
+    enc, small = mk_ref_parts(E, D)
+    blank = HNode.is_HBlank(D)
+
+    def hashed():
+        e = HM.x_encode_raw(E, node)
+        return (E.keccak(e), e)
+    return [Case("blank", when=mk_bool(blank), returns=lambda: (b"", None)),
+            Case("embedded", when=mk_bool(z3.And(z3.Not(blank), small)), returns=lambda: (Is(node), None)),
+            Case("hashed", when=mk_bool(z3.And(z3.Not(blank), z3.Not(small))), returns=hashed)]
+
+
+def nmap_cases(E, ctx):
+    """_node_to_db_mapping: the same rule; on a pruning trie the lru-cached variant returns an equal *copy* of an
+    embedded node (tuplify / listify), shared between equal nodes: it must never be written"""
+    node = ctx.node
+    s = ctx.self
+    D = HM.alpha(node)
+    enc, small = mk_ref_parts(E, D)
+    blank = HNode.is_HBlank(D)
+
+    def hashed():
+        e = HM.x_encode_raw(E, node)
+        return (E.keccak(e), e)
+
+    def embedded():
+        if s.fields["is_pruning"] is True and isinstance(node, ListObj):
+            cp = _deep_copy(node)
+            cp.frozen = True
+            return (cp, None)
+        return (node, None)
+    return [Case("blank", when=mk_bool(blank), returns=lambda: (b"", None)),
+            Case("embedded", when=mk_bool(z3.And(z3.Not(blank), small)), make=embedded),
+            Case("hashed", when=mk_bool(z3.And(z3.Not(blank), z3.Not(small))), returns=hashed)]
+
+
+def _deep_copy(lst):
+    items = []
+    for x in lst.items:
+        items.append(_deep_copy(x) if isinstance(x, ListObj) else (SRef(x.t) if isinstance(x, SRef) else x))
+    return ListObj(items=items)
+
+
+def persist_setup(E):
+    t, node, D = wf_node_setup(E)
+    return {"self": t, "node": node}
+
+
+def persist_cases(E, ctx):
+    """_persist_node(node) returns the reference to put into the parent (mk_ref) and, for a hashed node, stores
+    rlp(node) under its keccak (content-addressed) and counts one more reference on a pruning trie"""
+    s = ctx.self
+    db = s.fields["db"]
+    rc = s.fields["_ref_count"]
+    node = ctx.node
+    D = HM.alpha(node)
+    enc, small = mk_ref_parts(E, D)
+    blank = HNode.is_HBlank(D)
+    h = specfn.keccak(enc)
+
+    def post_hashed():
+        out = [("stored", mk_bool(z3.And(db.has == z3.Store(ctx.old_has(db), h, z3.BoolVal(True)),
+                                         db.val == z3.Store(ctx.old_val(db), h, enc))))]
+        if rc is not None:
+            old = z3.If(z3.Select(ctx.old_has(rc), h), z3.Select(ctx.old_val(rc), h), 0)
+            out.append(("counted", mk_bool(z3.And(z3.Select(rc.has, h), z3.Select(rc.val, h) == old + 1))))
+        return out
+
+    def ret_hashed():
+        e = HM.x_encode_raw(E, node)
+        E.assume(mk_bool(z3.Implies(z3.Select(ctx.old_has(db), h), z3.Select(ctx.old_val(db), h) == HM.unk(h))))
+        return E.keccak(e)
+
+    def ens_embedded(r):
+        return [("reference-denotes-the-node", mk_bool(HM.ref_of(r) == HRef.REmb(D)) if isinstance(r, (ListObj, SRef)) else False)]
+
+    def make_embedded():
+        if s.fields["is_pruning"] is True and isinstance(node, ListObj):
+            cp = _deep_copy(node)
+            cp.frozen = True
+            return cp
+        return node
+    mods = [db] + ([rc] if rc is not None else [])
+    return [Case("blank", when=mk_bool(blank), returns=lambda: b""),
+            Case("embedded", when=mk_bool(z3.And(z3.Not(blank), small)), ensures=ens_embedded, make=make_embedded),
+            Case("hashed", when=mk_bool(z3.And(z3.Not(blank), z3.Not(small))), returns=ret_hashed, post=post_hashed,
+                 modifies=mods)]
+
+
+def setraw_cases(E, ctx):
+    """_set_raw_node: the root rule -- a non-blank node is stored under the keccak of its rlp even when that is
+    shorter than 32 bytes; blank gives BLANK_NODE_HASH and writes nothing"""
+    s = ctx.self
+    db = s.fields["db"]
+    rc = s.fields["_ref_count"]
+    node = ctx.raw_node
+    D = HM.alpha(node)
+    enc = z3.simplify(HM.rlpenc(D))
+    blank = HNode.is_HBlank(D)
+    h = specfn.keccak(enc)
+    BNH = E.loader.load("trie.constants").ns["BLANK_NODE_HASH"]
+
+    def post():
+        out = [("stored", mk_bool(z3.And(db.has == z3.Store(ctx.old_has(db), h, z3.BoolVal(True)),
+                                         db.val == z3.Store(ctx.old_val(db), h, enc))))]
+        if rc is not None:
+            old = z3.If(z3.Select(ctx.old_has(rc), h), z3.Select(ctx.old_val(rc), h), 0)
+            out.append(("counted", mk_bool(z3.And(z3.Select(rc.has, h), z3.Select(rc.val, h) == old + 1))))
+        return out
+
+    def ret():
+        e = HM.x_encode_raw(E, node)
+        E.assume(mk_bool(z3.Implies(z3.Select(ctx.old_has(db), h), z3.Select(ctx.old_val(db), h) == HM.unk(h))))
+        return E.keccak(e)
+    mods = [db] + ([rc] if rc is not None else [])
+    return [Case("blank", when=mk_bool(blank), returns=lambda: BNH),
+            Case("stored", when=mk_bool(z3.Not(blank)), returns=ret, post=post, modifies=mods)]
+
+
+def setraw_setup(E):
+    t, node, D = wf_node_setup(E)
+    return {"self": t, "raw_node": node}
+
+
+def prune_node_setup(E):
+    t, node, D = wf_node_setup(E, pruning=True)
+    t.fields["_pending_prune_keys"] = E.fresh_dict("pending", "bytes", "int", default=0)
+    return {"self": t, "node": node}
+
+
+def prune_node_cases(E, ctx):
+    """_prune_node(node): on a pruning trie one more pending prune of the node's hash iff the node is hashed
+    (rlp >= 32 bytes); nothing else changes"""
+    s = ctx.self
+    pend = s.fields["_pending_prune_keys"]
+    node = ctx.node
+    D = HM.alpha(node)
+    enc, small = mk_ref_parts(E, D)
+    blank = HNode.is_HBlank(D)
+    h = specfn.keccak(enc)
+    if s.fields["is_pruning"] is not True:
+        return [Case("not-pruning", returns=lambda: None)]
+
+    def post():
+        old = z3.If(z3.Select(ctx.old_has(pend), h), z3.Select(ctx.old_val(pend), h), 0)
+        k = z3.Const("k!pp", SeqI)
+        return [("one-more-pending-prune", mk_bool(z3.And(z3.Select(pend.has, h), z3.Select(pend.val, h) == old + 1))),
+                ("other-keys-untouched", mk_bool(z3.ForAll([k], z3.Implies(k != h, z3.And(
+                    z3.Select(pend.has, k) == z3.Select(ctx.old_has(pend), k),
+                    z3.Select(pend.val, k) == z3.Select(ctx.old_val(pend), k))))))]
+    hashed = z3.And(z3.Not(blank), z3.Not(small))
+    return [Case("embedded-or-blank", when=mk_bool(z3.Not(hashed)), returns=lambda: None),
+            Case("hashed", when=mk_bool(hashed), returns=lambda: None, post=post, modifies=[pend])]
+
+
+def _register_store2(reg):
+    g = "hexary_store"
+    H = HEX + ":HexaryTrie."
+    reg.add(g, Contract(VAL + ":validate_is_node", ["node"], vin_cases, requires=vin_requires, props=("C18",), verify=False,
+                        justified_by="the recursive validator accepts exactly the well-formed raw nodes; decided by the bounded tier (C18)"))
+    reg.add(g, Contract(H + "_create_node_to_db_mapping", ["self", "node"], cmap_cases, setup=cmap_setup,
+                        props=("C02", "C04", "C06")))
+    reg.add(g, Contract(H + "_node_to_db_mapping", ["self", "node"], nmap_cases, props=("C02",), verify=False,
+                        justified_by="_create_node_to_db_mapping's contract; functools.lru_cache is transparent and "
+                                     "tuplify / listify are inverse deep copies (assumed, cross-checked by the bounded tier)"))
+    reg.add(g, Contract(H + "_persist_node", ["self", "node"], persist_cases, setup=persist_setup,
+                        props=("C02", "C04", "C06")))
+    reg.add(g, Contract(H + "_set_raw_node", ["self", "raw_node"], setraw_cases, setup=setraw_setup,
+                        props=("C02", "C04", "C06")))
+    reg.add(g, Contract(H + "_prune_node", ["self", "node"], prune_node_cases, setup=prune_node_setup, props=("C06",)))
